@@ -16,8 +16,8 @@ class CHOOSE:
 
     def post(args, out):
         n = len(args) - 1
-        if n >= 1 and (is_int(args[0]) or is_bool(args[0])):
-            i = int(args[0])
+        if n >= 1 and (is_int(args[0]) or is_bool(args[0]) or (is_float(args[0]) and args[0] == int(args[0]))):
+            i = int(args[0])          # a position computed as a float (4/2) is the position it equals
             if 1 <= i and i <= n:
                 return out.ret and same(out.value, args[i])
         # otherwise an error - never one of the values
@@ -163,10 +163,9 @@ class MATCH_text:
     domain = _text_arrays
 
     def post(lookup_value, lookup_array, match_type, out):
-        import fnmatch
         a = lookup_array
         n = len(a)
-        hits = [j for j in range(n) if is_str(a[j]) and fnmatch.fnmatch(a[j].lower(), lookup_value.lower())]     # a non-text item never equals a text
+        hits = [j for j in range(n) if is_str(a[j]) and wildcard_match(a[j].lower(), lookup_value.lower())]     # a non-text item never equals a text; * and ? are the only wildcards
         if lookup_value == '':
             return True       # an empty lookup text is outside the statement
         if hits:
